@@ -426,20 +426,26 @@ func main() {
 	commonF := parseFile(filepath.Join(repo, "valid/common.go"))
 	fnF := parseFile(filepath.Join(repo, "valid/validfn.go"))
 	ruleF := parseFile(filepath.Join(repo, "valid/rule.go"))
-	fnFiles := map[string]*ast.File{"valid/common.go": commonF, "valid/cache.go": cacheF, "valid/validfn.go": fnF, "valid/rule.go": ruleF}
+	fnFiles := map[string]*ast.File{"valid/common.go": commonF, "valid/cache.go": cacheF, "valid/validfn.go": fnF, "valid/rule.go": ruleF, "valid/init.go": initF}
 	writeIfChanged(filepath.Join(outDir, "SourceFnsSize.v"), miniGo(fnFiles, [][2]string{{"valid/common.go", "validInputSize"}, {"valid/validfn.go", "eq"}}))
 	writeIfChanged(filepath.Join(outDir, "SourceFnsParse.v"), miniGo(fnFiles, [][2]string{{"valid/common.go", "ParseValidNameKV"}, {"valid/common.go", "IsExported"}}))
 	writeIfChanged(filepath.Join(outDir, "SourceFnsGen.v"), miniGo(fnFiles, [][2]string{{"valid/rule.go", "GenValidKV"}, {"valid/rule.go", "RM_Set"}, {"valid/rule.go", "RM_Get"}}))
-	writeIfChanged(filepath.Join(outDir, "SourceFnsMsg.v"), miniGo(fnFiles, [][2]string{{"valid/common.go", "GetJoinValidErrStr"}}))
+	writeIfChanged(filepath.Join(outDir, "SourceFnsMsg.v"), miniGo(fnFiles, [][2]string{{"valid/common.go", "GetJoinValidErrStr"}, {"valid/common.go", "GetJoinFieldErr"}, {"valid/init.go", "GetOnlyExplainErr"}}))
 	writeIfChanged(filepath.Join(outDir, "SourceFnsRule.v"), miniGo(fnFiles, [][2]string{{"valid/validfn.go", "To"}, {"valid/validfn.go", "OTo"},
 		{"valid/validfn.go", "Ge"}, {"valid/validfn.go", "Gt"}, {"valid/validfn.go", "Le"}, {"valid/validfn.go", "Lt"},
-		{"valid/validfn.go", "Eq"}, {"valid/validfn.go", "NoEq"}}))
+		{"valid/validfn.go", "Eq"}, {"valid/validfn.go", "NoEq"}, {"valid/common.go", "parseTagTo"}, {"valid/common.go", "ReflectKindIsNum"}}))
 	writeIfChanged(filepath.Join(outDir, "SourceFnsFmt.v"), miniGo(fnFiles, [][2]string{{"valid/validfn.go", "Phone"}, {"valid/validfn.go", "Email"},
 		{"valid/validfn.go", "IDCard"}, {"valid/validfn.go", "Ip"}, {"valid/validfn.go", "Ipv4"}, {"valid/validfn.go", "Ipv6"},
 		{"valid/validfn.go", "Year"}, {"valid/validfn.go", "Year2Month"}, {"valid/validfn.go", "Date"},
 		{"valid/validfn.go", "Prefix"}, {"valid/validfn.go", "Suffix"}, {"valid/common.go", "CheckFieldIsStr"},
 		{"valid/validfn.go", "Int"}, {"valid/validfn.go", "Float"}, {"valid/validfn.go", "Json"}, {"valid/validfn.go", "File"},
 		{"valid/validfn.go", "Dir"}}))
+	writeIfChanged(filepath.Join(outDir, "SourceFnsIn.v"), miniGo(fnFiles, [][2]string{{"valid/validfn.go", "In"}, {"valid/validfn.go", "Include"},
+		{"valid/validfn.go", "in"}}))
+	tagF := parseFile(filepath.Join(repo, "file/handletag.go"))
+	fnFiles["file/handletag.go"] = tagF
+	writeIfChanged(filepath.Join(outDir, "SourceFnsTags.v"), miniGo(fnFiles, [][2]string{{"file/handletag.go", "tagItems_override"}, {"file/handletag.go", "tagItems_format"}}))
+	writeIfChanged(filepath.Join(outDir, "SourceFnsPtr.v"), miniGo(fnFiles, [][2]string{{"valid/common.go", "RemoveValuePtr"}}))
 	writeIfChanged(filepath.Join(outDir, "SourceFnsToStr.v"), miniGo(fnFiles, [][2]string{{"valid/common.go", "ToStr"}}))
 	writeIfChanged(filepath.Join(outDir, "SourceFnsSplit.v"), miniGo(fnFiles, [][2]string{{"valid/common.go", "ValidNamesSplit"}}))
 	writeIfChanged(filepath.Join(outDir, "SourceFnsLRU.v"), miniGo(fnFiles, [][2]string{{"valid/cache.go", "LRUCache_Store"}, {"valid/cache.go", "LRUCache_Load"},
